@@ -154,6 +154,26 @@ func (c13) RunBatch(ctx *core.Ctx, batch int) {
 			doc := doc
 			ctx.Case(doc, func() { c13Check(ctx, "fixed", doc) })
 		}
+		// structurally odd nodes as members of an array operand, under every operator and in the
+		// three places an array can stand (validation does not look into arrays everywhere, the
+		// renderers do)
+		members := []string{`{"left":"a","operator":"RANGE"}`, `{"left":"a","operator":"RANGE","right":5}`, `{"left":"a","operator":"RANGE","right":"x"}`, `{"left":"a","operator":"RANGE","right":{"min":1}}`,
+			`{"left":"a","operator":"LIKE"}`, `{"left":"a","operator":"LIKE","right":5}`, `{"left":"a","operator":"IN"}`, `{"left":"a","operator":"IN","right":"x"}`, `{"left":"a","operator":"LIST"}`, `{"left":[],"operator":"LIST"}`,
+			`{"left":"a","operator":"EQUALS"}`, `{"left":"a","operator":"GREATER"}`, `{"operator":"NOT"}`, `{"left":"a","operator":"BOOST","power":-1}`, `{"left":"a","operator":"FUZZY","distance":-1}`, `{"left":["x",{"left":"a","operator":"RANGE"}],"operator":"AND","right":"y"}`,
+			`{"left":"a","operator":"AND"}`, `{"left":null,"operator":"MUST"}`, `[1,2]`, `{"min":1,"max":2}`, `"plain"`, `7`}
+		for _, op := range []string{"AND", "OR", "EQUALS", "LIKE", "NOT", "RANGE", "MUST", "MUST_NOT", "BOOST", "FUZZY", "LITERAL", "WILD", "REGEXP", "GREATER", "LESS", "GREATER_EQ", "LESS_EQ", "IN", "LIST"} {
+			for _, mdoc := range members {
+				for _, doc := range []string{
+					`{"left":[` + mdoc + `],"operator":"` + op + `"}`,
+					`{"left":[` + mdoc + `,"x"],"operator":"` + op + `","right":"y"}`,
+					`{"left":"a","operator":"` + op + `","right":{"left":[` + mdoc + `,"z"],"operator":"LIST"}}`,
+					`{"left":{"left":[` + mdoc + `],"operator":"` + op + `"},"operator":"AND","right":"k"}`,
+				} {
+					doc := doc
+					ctx.Case(doc, func() { c13Check(ctx, "array-member", doc) })
+				}
+			}
+		}
 		// deep nesting up to encoding/json's own limit
 		depths := []int{10, 100, 1000, 2500}
 		if ctx.Thorough() {
